@@ -55,6 +55,19 @@ def gen_envhash(rng):
     return ('envhash', args)
 
 
+DF_NODES = ['a', 'b', 'c', 'd', 'e', 'out', 'x/y.h', 'lib10', 'lib9', 'Z']
+
+
+def gen_depfile(rng):
+    n = rng.randint(1, 6)
+    rules = []
+    for _ in range(n):
+        ts = rng.sample(DF_NODES, rng.randint(1, 2))
+        ds = [rng.choice(DF_NODES) for _ in range(rng.randint(0, 4))]
+        rules.append(J(ts) + SEP1 + J(ds) if ds else J(ts))
+    return ('depfile', [rng.choice(DF_NODES)] + rules)
+
+
 def gen_base(rng, table):
     order = gen_set(rng, rng.randint(0, 7), table)
     pre = gen_set(rng, rng.choice([0, 0, 1, 3]), table)
@@ -118,6 +131,8 @@ def inprocess_cases(ctx, table):
         ('envhash', ['ZED', '1', 'ALPHA', 'x y', 'Mid', '']),
         ('base', [J(table), '', J(['b_pch', 'b_lto', 'b_ndebug', 'b_asneeded']), '']),
         ('base', [J(table), 'sub', J(['b_staticpic', 'b_pie', 'b_colorout']), J(['b_pie'])]),
+        ('depfile', ['out', 'out' + SEP1 + J(['b', 'a']), 'a' + SEP1 + J(['z', 'c']), 'b' + SEP1 + J(['c', 'out']), 'c' + SEP1 + 'c', 'q' + SEP1 + 'r']),
+        ('depfile', ['missing', 'out' + SEP1 + 'a']), ('depfile', ['out', J(['out', 'o2']) + SEP1 + J(['a', 'a']), 'out' + SEP1 + 'b', 'o2']),
         ('fs', [SEP1.join(['c', 'out.h', 'A']), SEP1.join(['c', 'out.h', 'A']), SEP1.join(['c', 'out.h', 'B'])]),
         ('fs', [SEP1.join(['n', 'b.ninja', 'A']), SEP1.join(['n', 'b.ninja', 'A'])]),
         ('fs', [SEP1.join(['r', 'out.h', 'out.h~'])]),
@@ -138,6 +153,8 @@ def inprocess_cases(ctx, table):
             cases.append(gen_oset(rng))
         elif k < 0.65:
             cases.append(gen_envhash(rng))
+        elif k < 0.72:
+            cases.append(gen_depfile(rng))
         elif k < 0.8:
             cases.append(gen_base(rng, table))
         else:
@@ -153,6 +170,14 @@ def inprocess_cases(ctx, table):
         for perm in itertools.permutations(bs, r):
             for sub, pre in (('', ''), ('sp', 'b_lto')):
                 cases.append(('base', [J(table), sub, J(perm), pre]))
+    # exhaustive: every graph on 3 nodes (each node's deps any subset incl. self loops and cycles), every start node
+    nodes = ['a', 'b', 'c']
+    subsets = [[x for i, x in enumerate(nodes) if m >> i & 1] for m in range(8)]
+    for sa in subsets:
+        for sb in subsets:
+            for sc in subsets:
+                rules = [t + SEP1 + J(d) if d else t for t, d in zip(nodes, (sa, sb, sc))]
+                cases.append(('depfile', [nodes[(len(sa) + len(sb)) % 3]] + rules))
     # exhaustive: every file-system program of length <= 3 (4) over a small op alphabet
     alpha = fs_ops_alphabet(small=True)
     depth = 4 if thorough else 3
@@ -199,6 +224,27 @@ def oracle_groups(ctx, table):
         ks = gen_set(rng, rng.randint(2, 5), ['ZED', 'ALPHA', 'Mid', 'PATH', 'A', 'a'])
         kv = [[k, rng.choice(['1', 'x y', ''])] for k in ks]
         groups.append({'kind': 'envhash', 'orders': [kv] + [rng.sample(kv, len(kv)) for _ in range(3)]})
+    # depfiles: same rules, rule order and deps order shuffled
+    for _ in range(60 if thorough else 25):
+        c = gen_depfile(rng)
+        rules = c[1][1:]
+        def shuf(rs):
+            out = []
+            for r in rng.sample(rs, len(rs)):
+                f = r.split(SEP1)
+                d = f[1].split(SEP2) if len(f) > 1 else []
+                out.append(f[0] + SEP1 + J(rng.sample(d, len(d))) if d else f[0])
+            return out
+        groups.append({'kind': 'depfile', 'name': c[1][0], 'orders': [rules] + [shuf(rules) for _ in range(3)]})
+    # exe-wrapper digest naming (backends.py as_meson_exe_cmdline) on environment objects built by
+    # every method; the operations on DIFFERENT variables commute, so every order is the same object
+    for _ in range(60 if thorough else 30):
+        names = rng.sample(['ZED', 'ALPHA', 'Mid', 'PATH', 'A10', 'A9', 'a_b', 'LANG', 'TMPX'], rng.randint(3, 8))
+        k = rng.randint(1, len(names) - 1)
+        ops = [[rng.choice(['set', 'append', 'prepend']), n, rng.sample(['v1', 'x y', '/opt/z', ''], rng.randint(1, 2)), rng.choice([':', ',', ' '])]
+               for n in names[:k]] + [['unset', n] for n in names[k:]]
+        groups.append({'kind': 'exedigest', 'cmd': ['prog', 'a b', 'c'], 'capture': rng.choice([None, 'out.txt']),
+                       'feed': rng.choice([None, 'in.txt']), 'orders': [ops] + [rng.sample(ops, len(ops)) for _ in range(3)]})
     for _ in range(40):
         seq = [rng.choice(NAMES) for _ in range(rng.randint(2, 9))]
         groups.append({'kind': 'uniq', 'seq': seq, 'orders': [seq]})
@@ -486,6 +532,19 @@ def run(ctx):
         kc = cases + extra
         ctx.kernel_crosscheck('Determ.Entry', kc, model + ctx.run_model(extra), limit=300)
 
+    # ---------------- failing-input search around model/implementation disagreements: the same case under
+    # other hash seeds must give the same answer (a disagreement that is a nondeterminism becomes a concrete replay)
+    if ctx.disagreements:
+        dlist = [d for d in ctx.disagreements[:60] if isinstance(d['case'][1], list)]
+        dcases = [d['case'] for d in dlist]
+        alt = pmap(lambda sd: run_impl('c06.py', {'cases': dcases}, env={'PYTHONHASHSEED': sd})['results'], ['1', '2', '3'])
+        for i, dc in enumerate(dcases):
+            outs = [dlist[i]['implementation']] + [a[i] for a in alt]
+            if len(set(outs)) > 1:
+                ctx.violation('C06:seed-dependent:%s' % dc[0],
+                              'in-process writer %s gives different answers for the same arguments under PYTHONHASHSEED 0/1/2/3: %r'
+                              % (dc[0], outs), {'case': dc, 'answers_by_seed': outs})
+                break
     # ---------------- in-process oracle 1: real Python sets, several insertion orders, four hash seeds
     groups = oracle_groups(ctx, table)
     seeds = ['0', '1', '2', '3'] + ([str(rng.randrange(4, 10 ** 6))] if thorough else [])
@@ -525,6 +584,10 @@ def run(ctx):
         projects.append(G.make_project(rng, 'gen%03d' % k))
         k += 1
     projects = projects[:max(nproj, 1)]
+    cov = run_impl('c06.py', {'coverage': [t for q in projects for f, t in q['files'].items()
+                                           if f.endswith('meson.build')]})['coverage']
+    ctx.extra['cli_function_kwargs_covered'] = cov['used']
+    ctx.extra['cli_functions_not_exercised'] = [f for f in cov['interpreter_functions'] if f not in cov['used']]
     t = time.time()
     jobs, results = cli_stream(ctx, projects)
     ctx.extra['cli_wall_s'] = round(time.time() - t, 1)
